@@ -258,6 +258,20 @@ var contexts = map[string]func(x func() *recipe.Node) *recipe.Node{
 	"defs": func(x func() *recipe.Node) *recipe.Node {
 		return recipe.S().C("Const").C("Defs", recipe.Id("a").C("Op", "=").Then(x()), recipe.Id("b").C("Id", "T").C("Op", "=").Then(x()))
 	},
+	// declarations that name a type: the literal keeps its own type whatever the declared one is (an interface
+	// holds the value with the type the literal has)
+	"var_any": func(x func() *recipe.Node) *recipe.Node {
+		return recipe.S().C("Var").C("Id", "V").C("Id", "any").C("Op", "=").Then(x())
+	},
+	"var_anyfn": func(x func() *recipe.Node) *recipe.Node {
+		return recipe.S().C("Var").C("Id", "V").C("Any").C("Op", "=").Then(x())
+	},
+	"var_named": func(x func() *recipe.Node) *recipe.Node {
+		return recipe.S().C("Var").C("Id", "V").C("Id", "Stringer").C("Op", "=").Then(x()).C("Line").C("Var").C("Id", "W").C("Interface").C("Op", "=").Then(x())
+	},
+	"var_list": func(x func() *recipe.Node) *recipe.Node {
+		return recipe.S().C("Var").C("List", recipe.Id("a"), recipe.Id("b")).C("Id", "any").C("Op", "=").C("List", x(), x())
+	},
 	"index":  func(x func() *recipe.Node) *recipe.Node { return recipe.Id("a").C("Index", x()).C("Index", x(), x()) },
 	"parens": func(x func() *recipe.Node) *recipe.Node { return recipe.S().C("Parens", x()).C("Dot", "m").C("Call") },
 	"add": func(x func() *recipe.Node) *recipe.Node {
@@ -355,6 +369,10 @@ func checkList(c listCase) error {
 			}
 			if a, b := strings.Join(strings.Fields(text), ""), strings.Join(strings.Fields(alone), ""); a != b {
 				ferr = fmt.Errorf("element %d, %s(%v): rendered as %q next to the other literals of this File, as %q alone", i, c.Vals[i].T, c.Vals[i].Go(), text, alone)
+				return false
+			}
+			if err := valueCheck(Case{Val: c.Vals[i]}, text); err != nil {
+				ferr = fmt.Errorf("element %d of the list: %v", i, err)
 				return false
 			}
 			n++
@@ -602,9 +620,9 @@ func TestC11(t *testing.T) {
 		}
 		r.Exhaustive("bool, int8, uint8 (thorough: int16, uint16), float64 decades 1e-330..1e310")
 	}
-	hx.Rapid(r, t, hx.Check[listCase]{Name: "literals_in_one_file", Fn: checkList}, r.N(1500, 15000), func(rt *rapid.T) listCase {
+	genList := func(rt *rapid.T, lo, hi int) listCase {
 		c := listCase{}
-		n := rapid.IntRange(2, 9).Draw(rt, "nvals")
+		n := rapid.IntRange(lo, hi).Draw(rt, "nvals")
 		for len(c.Vals) < n {
 			v := genValue(rt)
 			c.Vals = append(c.Vals, v)
@@ -647,9 +665,28 @@ func TestC11(t *testing.T) {
 			}
 		}
 		c.Vals = finite
+		return c
+	}
+	hx.Rapid(r, t, hx.Check[listCase]{Name: "literals_in_one_file", Fn: checkList}, r.N(1500, 15000), func(rt *rapid.T) listCase {
+		c := genList(rt, 2, 9)
 		r.NonTrivial(recipe.JSON(c))
 		r.Class("literal_lists")
 		return c
+	})
+	// several Files with literal tables rendered at the same time, each by a goroutine of its own that shares
+	// nothing with the others: every File still holds its own values
+	hx.Rapid(r, t, hx.Check[hx.Batch[listCase]]{Name: "literals_concurrently", Fn: hx.Together(checkList)}, r.N(40, 400), func(rt *rapid.T) hx.Batch[listCase] {
+		b := hx.Batch[listCase]{Rounds: 3}
+		for i := rapid.IntRange(3, 8).Draw(rt, "files"); i > 0; i-- {
+			c := genList(rt, 10, 40)
+			c.Pkgs = nil
+			if len(c.Vals) > 0 {
+				b.Cases = append(b.Cases, c)
+			}
+		}
+		r.NonTrivial(recipe.JSON(b))
+		r.Class("literal_tables_rendered_concurrently")
+		return b
 	})
 	hx.Rapid(r, t, hx.Check[Case]{Name: "literal_random", Fn: check}, r.N(15000, 250000), func(rt *rapid.T) Case {
 		c := Case{Val: genValue(rt), Func: rapid.IntRange(0, 3).Draw(rt, "func") == 0, Ctx: rapid.SampledFrom(append([]string{"", "", "assign", "call"}, contextNames()...)).Draw(rt, "ctx")}
